@@ -20,7 +20,7 @@ PROPERTY = "C18"
 FUNCTIONS = ["SelectChoiceValidator.validate", "ChoiceQuestion.__init__/_write_prompt", "Question.ask/_do_ask/_validate_attempts/_read_from_input/_write_error",
              "ConfirmationQuestion._get_default_normalizer", "Input.read_line/is_interactive", "IO.read_line/error/error_line"]
 PART = {}
-BOUNDS = {"quick": "validator: 7 choice lists (numeric-looking, duplicated, spaced inside and around, case-differing) x single/multi-select x every answer <= 3 chars over {a,b,A,0,1,2,-,space,comma}; dialogues: scripts of <= 3 lines from a 9-line menu x end-of-input after 0..3 lines x attempts {unlimited,1,2,3} x default none/index; "
+BOUNDS = {"quick": "validator: 8 choice lists (numeric-looking, duplicated, spaced inside and around, case-differing, a single entry) x single/multi-select x every answer <= 3 chars over {a,b,A,0,1,2,-,space,comma}; dialogues: scripts of <= 3 lines from a 9-line menu x end-of-input after 0..3 lines x attempts {unlimited,1,2,3} x default none/index; "
                    "confirmation: 2 patterns x defaults x answers <= 3 chars over {y,Y,n,j,a,space}; non-interactive questions",
           "thorough": "answers <= 4 chars, scripts of 4 lines"}
 OUTSIDE = ["hidden questions / autocompletion (need a tty; `stty` is stubbed as unavailable)", "choice lists longer than 4 entries", "answers longer than stated"]
@@ -62,7 +62,7 @@ def _io(lines):
     return IO(Input(st), Output(out, PlainFormatter()), Output(err, PlainFormatter())), st, out, err
 
 
-LISTS = [["a", "b"], ["a", "b", "a"], ["1", "0", "x"], ["a b", "ab", "b"], ["A", "a", "2"], ["10", "b", "-1", "1"], [" a", "b ", "a", "1 "]]
+LISTS = [["a", "b"], ["a", "b", "a"], ["1", "0", "x"], ["a b", "ab", "b"], ["A", "a", "2"], ["10", "b", "-1", "1"], [" a", "b ", "a", "1 "], ["only"]]
 ANS_ALPHA = "abA012- ,"
 WORD = "abcdefghijklmnopqrstuvwxyzABCDEFGHIJKLMNOPQRSTUVWXYZ0123456789_-"
 
@@ -193,7 +193,7 @@ def _dialogue_model(choices, lines, attempts, default):
 def _dialogue_case(li, idx, nlines, attempts, use_default, prior=0):
     choices = LISTS[li]
     lines = [LINES[k] for k in idx[:nlines]]
-    default = "1" if use_default else None
+    default = ("1" if len(choices) > 1 else "0") if use_default else None          # (a default must denote a choice)
     q = ChoiceQuestion("pick", list(choices), default)
     q.set_max_attempts(attempts)
     if prior:
@@ -299,7 +299,12 @@ def _non_interactive_case(kind, default_i):
         q.set_validator(lambda v: v)
     io, st, out, err = _io(["a", "b"])
     io.set_interactive(False)
-    got = q.ask(io)
+    from vf.sym import DeadlineExceeded, deadline
+    try:
+        with deadline(5):
+            got = q.ask(io)
+    except DeadlineExceeded:
+        return False                  # asked forever although nobody is there to answer
     return got == default and st.reads == 0 and out.fetch() == "" and err.fetch() == ""
 
 
